@@ -4,17 +4,25 @@ import BfeVerif.C33.Proofs
   `runEvs {isw} evs` = the server (after fix C33-conn-credit) after the client frames / handler actions
   `evs` (HEADERS, DATA with padding, handler reads, Body.Close, handler return, RST_STREAM), any order.
   Ghost counters (never read by the transitions): `sent` Σ DATA frame lengths received, `wu0` Σ
-  connection WINDOW_UPDATE increments sent, `held` octets still readable in body pipes, `rej` Σ lengths
+  connection WINDOW_UPDATE increments sent, `held` octets still readable in body pipes, `infl` octets a
+  handler has pulled out of its pipe whose bodyReadMsg the serve loop has not received yet, `rej` Σ lengths
   of frames refused with FLOW_CONTROL_ERROR.
+  The handler's read is split into two events (`pull`: pipe.Read returns and the handler blocks on
+  bodyReadCh; `deliver`: the serve loop receives the message and runs noteBodyRead), so an event list is an
+  arbitrary INTERLEAVING of read notifications with client frames, resets (client RST_STREAM `rst`,
+  server-side `srvReset` as for stream errors/timeouts) and handler exits.
 -/
 namespace BfeVerif.C33
 
-/-- **C33 credit (full strength)**: every DATA octet ever received (padding included) is either
-    credited back by a connection WINDOW_UPDATE, still buffered for a handler that can read it, or
-    was refused with FLOW_CONTROL_ERROR.  There is no other place an octet can go. -/
+/-- **C33 credit (full strength, every interleaving)**: every DATA octet ever received (padding included)
+    is either credited back by a connection WINDOW_UPDATE, still buffered for a handler that can read it,
+    pulled by a handler and awaiting delivery of its read notification, or was refused with
+    FLOW_CONTROL_ERROR — whatever the order of read notifications and stream closes.  Equivalently:
+    window advertised to the client (65535 − sent + wu0) + in flight + unread = 65535 when nothing was
+    refused. -/
 theorem C33_credit (isw : Nat) (evs : List Ev) :
     let s := runEvs { isw := isw } evs
-    s.sent = s.wu0 + s.held + s.rej := by
+    s.sent = s.wu0 + s.held + s.infl + s.rej := by
   have h := (run_acct evs _ (init_acct isw)).1
   simp only [] at h ⊢
   omega
@@ -39,14 +47,15 @@ theorem C33_never_over (isw : Nat) (evs : List Ev) :
 
 /-- **C33 replenished (full strength)**: for a client that respects the windows, once the handlers
     have read (or the server has discarded) everything, all octets have been credited back: the
-    client's connection window is at its initial value again — it never stalls. -/
+    (no read notification still on its way) the client's connection window is at its initial value
+    again — it never stalls. -/
 theorem C33_replenished (isw : Nat) (evs : List Ev) :
     let s := runEvs { isw := isw } evs
-    s.rej = 0 → s.held = 0 → s.wu0 = s.sent ∧ s.conn = 65535 := by
+    s.rej = 0 → s.held = 0 → s.infl = 0 → s.wu0 = s.sent ∧ s.conn = 65535 := by
   have h := C33_credit isw evs
   have h' := C33_server_view isw evs
   simp only [] at h h' ⊢
-  intro h4 h5
+  intro h4 h5 h6
   omega
 
 /-- **excess is refused**: on an open stream, a DATA frame within the declared length whose Length
@@ -111,12 +120,25 @@ def wOver : List Ev :=
 example : (runEvs { isw := 65535 } wOver).sent = 131070 ∧ (runEvs { isw := 65535 } wOver).wu0 = 65535 ∧
     (runEvs { isw := 65535 } wOver).rej = 0 := by decide
 
+/-- the race of seeded/C33-c: the handler has pulled 300 of 1000 buffered octets, the client's
+    RST_STREAM is processed first (700 discarded and credited), then the read notification arrives for a
+    stream that is already closed: the 300 octets are still credited to the connection -/
+def wRace : List Ev := [.headers 1 (-1) false, .data 1 1000 none false, .pull 1 300, .rst 1, .deliver 1]
+example : (runEvs { isw := 65535 } (wRace.take 4)).infl = 300 ∧ (runEvs { isw := 65535 } (wRace.take 4)).wu0 = 700 := by
+  decide
+example : (step (runEvs { isw := 65535 } (wRace.take 4)) (.deliver 1)).2.1 = [.wu 0 300] := by decide
+example : (runEvs { isw := 65535 } wRace).wu0 = 1000 ∧ (runEvs { isw := 65535 } wRace).conn = 65535 ∧
+    (runEvs { isw := 65535 } wRace).infl = 0 := by decide
+/-- the harness op Q is exactly that sequence -/
+example : (runEvs { isw := 65535 } [.headers 1 (-1) false, .data 1 1000 none false, .readThenClose 1 300 0]).conn
+    = 65535 := by decide
+
 /-! ### non-vacuity: a window-respecting exchange -/
 def clean : List Ev :=
   [.headers 1 20 false, .data 1 10 (some 5) false, .read 1 4, .data 1 10 none true, .read 1 100, .exit 1]
 
 example : let s := runEvs { isw := 65535 } clean
-    s.rej = 0 ∧ s.held = 0 ∧ s.sent = 26 ∧ s.wu0 = 26 ∧ s.conn = 65535 := by
+    s.rej = 0 ∧ s.held = 0 ∧ s.infl = 0 ∧ s.sent = 26 ∧ s.wu0 = 26 ∧ s.conn = 65535 := by
   decide
 
 end BfeVerif.C33
